@@ -696,7 +696,7 @@ func calAndSetShortCircuit(e *Expr) {
 
 func calAndSetShortCircuitForRCO(e *Expr) {
 	for i, n := range e.nodes {
-		p, _ := parentNode(e, int16(i))
+		p, pIdx := parentNode(e, int16(i))
 		switch {
 		case p == nil:
 			continue
@@ -704,6 +704,10 @@ func calAndSetShortCircuitForRCO(e *Expr) {
 			n.flag |= andOp
 		case isOrOpNode(p):
 			n.flag |= orOp
+		case p.getNodeType() == cond && int16(i) > pIdx:
+			// the true/false branch of an `if` produces the value of the `if`,
+			// so it short-circuits the enclosing and/or just like the `if` does
+			n.flag |= p.flag & parentOpMask
 		}
 	}
 }
